@@ -621,6 +621,32 @@ func runC17(c *Check, a *Analysis) {
 		c.Ob("R-LEAST-TIME", "(list).Swap#exchanges l[i] and l[j]", sw.Pos(), ok, ifs(!ok, "Swap does not exchange exactly the two elements"))
 	}
 
+	c.Rule("R-UPDATE-FEED", "every call of target.Update made by a Client call form is fed the error result of the very transport call it timed (so that an unreachable target is marked dead and reset)", 3)
+	for _, fn := range p.Fns {
+		if recvName(topParent(fn)) != "Client" {
+			continue
+		}
+		for _, up := range callsIn(fn, "(*target).Update") {
+			args := up.Common().Args
+			errArg := args[len(args)-1]
+			// the constant ErrDial fed by the prober for dead targets is fine
+			if isGlobalLoad(p.canon(errArg), "ErrDial") {
+				continue
+			}
+			fed := false
+			for _, o := range p.origins(errArg) {
+				o = p.canon(o)
+				if e, isE := o.(*ssa.Extract); isE {
+					o = e.Tuple
+				}
+				if cc, isC := o.(*ssa.Call); isC && cc.Common().IsInvoke() && namedOf(cc.Common().Value.Type()) == "RoundTripper" {
+					fed = true
+				}
+			}
+			c.Ob("R-UPDATE-FEED", sc.key(fn, "target.Update(…, err of the call)"), p.InstrPos(up), fed, ifs(!fed, "target.Update never sees the transport call's error ("+describe(errArg)+"): a target that stopped accepting connections is neither marked dead nor reset to the maximum latency, and its fast failures make it look like the best target"))
+		}
+	}
+
 	c.Rule("R-RESET-MAX", "target.Update stores the clientLatency constant exactly on the not-alive arm", 1)
 	if tu := p.Fn("(*target).Update"); tu == nil {
 		c.Undecided("R-RESET-MAX", "(*target).Update not found")
